@@ -375,6 +375,19 @@ func checkC04(r *core.Run) {
 			}
 		}
 	}
+	// rel / type chosen by a conditional: the strictest alternative decides
+	for _, alt := range [][2]string{{"icon", "stylesheet"}, {"stylesheet", "icon"}, {"icon", "alternate stylesheet"}, {"icon", "x"}, {"icon", ""}} {
+		cjobs = append(cjobs, cj{"<link {{if $.C}}rel=\"" + alt[0] + "\"{{else}}rel=\"" + alt[1] + "\"{{end}} href=\"{{$.P0}}\">", "Typed{TrustedResourceURL}", "link-rel-conditional"})
+		cjobs = append(cjobs, cj{"<link rel=\"{{if $.C}}" + alt[0] + "{{else}}" + alt[1] + "{{end}}\" href=\"{{$.P0}}\">", "Typed{TrustedResourceURL}", "link-rel-conditional"})
+	}
+	// characters that are not HTML white space between "=" and a quote: the value is unquoted for a tokenizer
+	for _, sp := range []string{"\v", "\u00a0", "\x00", "\u2028", "\x1c", "\u0085"} {
+		for _, q := range []string{"\"", "'"} {
+			cjobs = append(cjobs, cj{"<a title=" + sp + q + "{{$.P0}}" + q + ">", "reject", "non-space-before-quoted-value"})
+			cjobs = append(cjobs, cj{"<a href= " + sp + q + "{{$.P0}}" + q + ">", "reject", "non-space-before-quoted-value"})
+			cjobs = append(cjobs, cj{"<a" + sp + "href=" + q + "{{$.P0}}" + q + ">", "reject", "non-space-before-quoted-value"})
+		}
+	}
 	// a jump out of a loop body leaves the context of the jump, not that of the end of the body
 	for _, jmp := range []string{"{{break}}", "{{continue}}"} {
 		for _, e := range []string{"script", "style", "textarea", "title", "xmp"} {
